@@ -443,6 +443,9 @@ func (db *SpecDB) loadSpecFile(path, pkgPath string, assumed bool) error {
 				return fmt.Errorf("%s: %v", where, err)
 			}
 			name := strings.TrimSpace(d.text[:j])
+			if prev, dup := db.Preds[name]; dup && (prev.File != path || prev.Line != d.line) {
+				return fmt.Errorf("%s: predicate %s is already defined at %s:%d (predicate names are global to a load)", where, name, prev.File, prev.Line)
+			}
 			db.Preds[name] = &PredSpec{Name: name, Params: bs, Body: body, Pkg: pkgPath, Imports: imports, File: path, Line: d.line, Triggered: d.kw == "fpred"}
 		case "fun":
 			reset()
